@@ -202,7 +202,9 @@ def run_preempted(repo, fx, fy, k):
 
 
 def run_c18(ctx, fa):
-    from . import tlc
+    from . import mcheck, tlc
+    # M: the two-thread model of a decimal read with a per-call context is serializable under every interleaving
+    mcheck.model_check(ctx, "MC_Threads", {"Shared": "FALSE"}, ["Serializable"], "percall", spec="Spec")
     ops = build_ops(fa)
     # sequential results (each operation alone, twice: operations must be deterministic for the comparison to mean anything)
     seq = {}
